@@ -10,7 +10,7 @@ REPO = os.environ.get("VERIF_REPO", "/repo")
 WORK = os.path.join(VERIF, ".work")
 SPEC = os.path.join(VERIF, "spec")
 HARNESS = os.path.join(VERIF, "harness")
-EVID = os.path.join(VERIF, "evidence")
+EVID = os.path.join(VERIF, "evidence") if not os.environ.get("VERIF_EVID_SUFFIX") else os.path.join(VERIF, ".work", "evidence" + os.environ["VERIF_EVID_SUFFIX"])
 REPLAYS = os.path.join(EVID, "replays")
 TLA_JAR = "/opt/veriftools/tla/tla2tools.jar:/opt/veriftools/tla/CommunityModules-deps.jar"
 
@@ -344,3 +344,30 @@ def match_known(k, what, payload):
         if not re.search(rx, text):
             return False
     return True
+
+
+def judge_trace(chk, module, cfg, name, trace_file, describe, benign=("model",), timeout=3000, count=True):
+    """Validate an NDJSON trace with a trace spec whose Next prints <<"MISMATCH", line, verdict>>.
+    Verdict strings listed in `benign` are model divergences (counted, never reported); every other
+    verdict is a violation of the property on the implementation's own observation."""
+    n = count_lines(trace_file)
+    if n == 0:
+        return 0
+    r = tlc_trace(module, cfg, name, trace_file, timeout=timeout)
+    chk.add_tlc(r)
+    if count:
+        chk.traces += n
+    lines = None
+    for mm in r.mismatch:
+        ln, verdict = mm[0], mm[1]
+        if lines is None:
+            lines = [json.loads(x) for x in open(trace_file)]
+        rec = lines[ln - 1]
+        if verdict in benign:
+            chk.extra["benign_divergences"] = chk.extra.get("benign_divergences", 0) + 1
+            bs = chk.extra.setdefault("benign_samples", [])
+            if len(bs) < 3:
+                bs.append(rec)
+            continue
+        chk.violation("%s: %s" % (verdict, describe(rec)), {"verdict": verdict, "rec": rec})
+    return n
